@@ -17,7 +17,7 @@ macro_rules! std_headers { ($( $id:ident => $wire:literal ),* $(,)?) => {
         let mut i = 0usize;
         $( if i == idx { match (val, app) {
             // a value is handed over as an owned String or as a `&'static str` (a literal of the application): the two travel as different `Cow`s
-            (Some(x), false) => { if x.len() % 2 == 0 { res.headers.set().$id(x); } else { res.headers.set().$id(util::leak(x)); } }
+            (Some(x), false) => { if (x.len() + idx) % 2 == 0 { res.headers.set().$id(x); } else { res.headers.set().$id(util::leak(x)); } }
             (Some(x), true) => { res.headers.set().$id(append(x)); }
             (None, _) => { res.headers.set().$id(None); }
         } return } i += 1; )*
@@ -123,7 +123,7 @@ fn apply(res: &mut Response, op: &[Value], t: &Table) {
         "set" => set_std(res, t.std_idx(s(&op[1])), Some(t.val(s(&op[2]))), false),
         "app" => set_std(res, t.std_idx(s(&op[1])), Some(t.val(s(&op[2]))), true),
         "rem" => set_std(res, t.std_idx(s(&op[1])), None, false),
-        "cset" => { let x = t.val(s(&op[2])); if x.len() % 2 == 0 { res.headers.set().x(t.cust(s(&op[1])), x); } else { res.headers.set().x(t.cust(s(&op[1])), util::leak(x)); } }
+        "cset" => { let x = t.val(s(&op[2])); if (x.len() + t.cust(s(&op[1])).len()) % 2 == 0 { res.headers.set().x(t.cust(s(&op[1])), x); } else { res.headers.set().x(t.cust(s(&op[1])), util::leak(x)); } }
         "capp" => { res.headers.set().x(t.cust(s(&op[1])), append(t.val(s(&op[2])))); }
         "crem" => { res.headers.set().x(t.cust(s(&op[1])), None); }
         "cookie" => { let (n, val) = t.cookie(s(&op[1])); res.headers.set().SetCookie(n, val, |d| d); }
